@@ -75,6 +75,12 @@ func init() {
 			return nil
 		}
 		e.res.SymAsserts++
+		nv := len(e.res.Violations)
+		defer func() {
+			for i := nv; i < len(e.res.Violations); i++ {
+				e.res.Violations[i].UF = c.hasUF
+			}
+		}()
 		inPrefix := e.pos < len(e.prefix)
 		if c.isFalse() {
 			if !inPrefix {
@@ -108,6 +114,16 @@ func init() {
 		} else if ok {
 			// model satisfies c; look for a counterexample
 			saved, savedMemo := e.model, e.memo
+			if c.hasUF && len(e.ufGuards) > 0 {
+				// first on the islands where the uninterpreted applications are exactly defined
+				if e.checkWith(tAnd(append([]*term{tNot(c)}, e.ufGuards...)...), true) == "sat" && e.modelOK {
+					e.violation("assert", label, "island model")
+					e.model, e.memo, e.modelOK = saved, savedMemo, true
+					e.assert(c)
+					return nil
+				}
+				e.model, e.memo, e.modelOK = saved, savedMemo, true
+			}
 			switch e.checkWith(tNot(c), true) {
 			case "sat":
 				if e.modelOK {
@@ -124,7 +140,26 @@ func init() {
 			e.assert(c)
 			return nil
 		}
-		// cannot evaluate (uninterpreted functions): two queries
+		// cannot evaluate (uninterpreted functions): two queries.  A counterexample is looked for first where
+		// every uninterpreted application has its exact definition (an "island"), because only such a
+		// model is meaningful when replayed against the real functions.
+		if len(e.ufGuards) > 0 {
+			saved, savedMemo, savedOK := e.model, e.memo, e.modelOK
+			if e.checkWith(tAnd(append([]*term{tNot(c)}, e.ufGuards...)...), true) == "sat" && e.modelOK {
+				e.violation("assert", label, "island model")
+				e.model, e.memo, e.modelOK = saved, savedMemo, savedOK
+				switch e.checkWith(c, true) {
+				case "sat":
+					e.assert(c)
+					return nil
+				case "unsat":
+					panic(pathEnd{"assert fails on every input of this path"})
+				default:
+					panic(engineAbort{"solver unknown on assertion " + label})
+				}
+			}
+			e.model, e.memo, e.modelOK = saved, savedMemo, savedOK
+		}
 		switch e.checkWith(tNot(c), true) {
 		case "sat":
 			if e.modelOK {
@@ -211,6 +246,31 @@ func ufApply(name string, args []value) value {
 	return sym{mkP(oUF, sF64, 0, 0, name, ts...)}
 }
 
+// modExact is math.Mod for operands that are exact images of integers of at most 32 bits (the form symbolic
+// Lua numbers take when a harness draws them from VI32/VByte): fmod is then the truncated integer remainder
+// with the dividend's sign, a zero result takes the dividend's sign too, and a zero divisor gives NaN.  For
+// other symbolic operands math.Mod stays an uninterpreted function (nil is returned).
+func modExact(args []value) value {
+	xi, ok1 := asIntFloat(f64Term(args[0]))
+	yi, ok2 := asIntFloat(f64Term(args[1]))
+	if !ok1 || !ok2 {
+		return nil
+	}
+	for _, t := range []*term{xi, yi} {
+		lo, hi, ok := t.bvRange()
+		if !ok || lo < -(1<<31) || hi >= 1<<31 {
+			return nil
+		}
+	}
+	x32, y32 := tExtract(xi, 31, 0), tExtract(yi, 31, 0)
+	// the divisor 0 is replaced by 1 inside the remainder; the outer ite selects NaN for it
+	ysafe := tIte(tEq(y32, tBV(32, 0)), tBV(32, 1), y32)
+	rem := tSExt(mk(oSRem, bvSort(32), x32, ysafe), 64)
+	negx := mk(oSLt, sBool, xi, tBV(64, 0))
+	exact := tIte(tEq(rem, tBV(64, 0)), tIte(negx, mkF64(math.Copysign(0, -1)), mkF64(0)), mk(oSBV2F, sF64, rem))
+	return sym{tIte(tEq(y32, tBV(32, 0)), mkF64(math.NaN()), exact)}
+}
+
 func init() {
 	// math functions: native when concrete; SMT operator or uninterpreted function when symbolic.
 	type m1 struct {
@@ -259,6 +319,11 @@ func init() {
 			b, ok2 := args[1].(float64)
 			if ok1 && ok2 {
 				return m.f(a, b)
+			}
+			if m.name == "math.Mod" {
+				if v := modExact(args); v != nil {
+					return v
+				}
 			}
 			return ufApply("UF_"+m.name[5:], args)
 		}
